@@ -10,8 +10,10 @@
 -/
 import ProphyModel.Properties.C14
 import ProphyModel.Properties.C15
+import ProphyModel.Properties.C15Complete
 import ProphyModel.Properties.C16
 import ProphyModel.Properties.C17
+import ProphyModel.Lemmas.TopoComplete
 namespace Prophy.C13
 open Prophy
 
@@ -39,5 +41,14 @@ theorem C13_neg_shift_is_error (a b : Int) (h : b < 0) :
   simp [Expr.binop, Expr.rawBinop, Expr.isShift, h, h64]
 theorem C13_huge_shift_is_error (a b : Int) (h : b > 64) : Expr.binop .shl a b = .error .outOfRange := by
   simp [Expr.binop, Expr.isShift, h]
+
+
+/-- the rotation bound is never hit by an acyclic definition set: a ModelError "cyclic dependency"
+    is raised only for sets that do have a cycle -/
+theorem C13_sort_succeeds_on_acyclic (g : List Topo.TNode) (rank : String → Nat)
+    (hr : ∀ n ∈ g, ∀ d ∈ n.deps, d ∈ g.map (·.name) → rank d < rank n.name) :
+    Topo.sort g ≠ none := by
+  obtain ⟨r, h⟩ := Topo.sort_complete' g rank hr
+  rw [h]; simp
 
 end Prophy.C13
